@@ -86,6 +86,8 @@ class TableEval:
             for e in node.elts:
                 if isinstance(e, ast.Constant) and isinstance(e.value, str):
                     out.add(e.value)
+                elif isinstance(e, ast.Name) and e.id in unit.assigns and isinstance(unit.assigns[e.id], ast.Constant) and isinstance(unit.assigns[e.id].value, str):
+                    out.add(unit.assigns[e.id].value)       # module-level string constant
                 else:
                     raise AnalysisError(f"non-literal string option {norm_src(e)} in {unit.relpath}")
             return frozenset(out)
